@@ -19,7 +19,7 @@ def f2bits(x):
 class Work:
     """scratch directory under /verif/work, removed on exit"""
     def __init__(self, name):
-        self.root = os.path.join(VERIF, 'work', '%s-%d' % (name, os.getpid()))
+        self.root = os.path.join(os.environ.get('VERIF_OUT', VERIF), 'work', '%s-%d' % (name, os.getpid()))
         shutil.rmtree(self.root, ignore_errors=True)
         os.makedirs(self.root)
         self.n = 0
@@ -217,8 +217,9 @@ class Report:
         return True
 
     def finish(self):
-        os.makedirs(os.path.join(VERIF, 'evidence'), exist_ok=True)
-        os.makedirs(os.path.join(VERIF, 'replays'), exist_ok=True)
+        OUT = os.environ.get('VERIF_OUT', VERIF)      # seed-matrix runs write their evidence and replays elsewhere
+        os.makedirs(os.path.join(OUT, 'evidence'), exist_ok=True)
+        os.makedirs(os.path.join(OUT, 'replays'), exist_ok=True)
         for k in self.known:
             print('KNOWN-FINDING: property=%s %s' % (self.prop, k['what']))
         rc = 0
@@ -228,7 +229,7 @@ class Report:
             hid = hashlib.sha256(body.encode()).hexdigest()[:12]
             if hid in seen: continue
             seen.add(hid)
-            path = os.path.join(VERIF, 'replays', '%s-%s.json' % (self.prop, hid))
+            path = os.path.join(OUT, 'replays', '%s-%s.json' % (self.prop, hid))
             with open(path, 'w') as f: json.dump(v, f, indent=1)
             tail = '' if v.get('found_failing_input', True) else ' no-failing-input-found'
             print('VIOLATION property=%s replay=%s%s' % (self.prop, path, tail))
@@ -237,6 +238,6 @@ class Report:
         ev = dict(property_id=self.prop, tier=self.tier, seed=self.seed, level=self.level,
                   coverage=self.coverage, assumptions=self.assumptions,
                   wall_s=round(time.time() - self.t0, 2), violations=len(self.violations))
-        with open(os.path.join(VERIF, 'evidence', self.prop + '.json'), 'w') as f:
+        with open(os.path.join(OUT, 'evidence', self.prop + '.json'), 'w') as f:
             json.dump(ev, f, indent=1)
         return rc
